@@ -10,34 +10,46 @@ MANIFEST = {
     "C20": {
         "technique": "Lean 4 proof (checked-memory model of Process::Arguments refined to a declarative getopt_long-convention parser; "
                      "model of splitCommandLine refined to a reference tokenizer, termination on every buffer, expressibility of every "
-                     "argument vector; argv/environment handed to execvpe; descriptor tables of open()) + assumption-level protocol "
-                     "theorems in an abstract pipe model + differential correspondence model vs real Process.cpp + tests against the "
+                     "argument vector; argv/environment handed to execvpe; descriptor tables of open()) + kernel-model-level theorems "
+                     "(unconstrained pipe system for arbitrary parent/child programs, documented protocol against arbitrary child programs, "
+                     "wait/interrupt/join over a process table with pid reuse) + differential correspondence model vs real Process.cpp + tests against the "
                      "real kernel with a helper child",
         "text": "PROVED about the model of the code, for all inputs: option tables x argument vectors (result sequence = getopt "
                 "conventions, no read outside the argument strings / option names, termination); command lines (tokenizer refinement, "
                 "termination on every buffer, every argument vector is expressible by the quoting rules and read back exactly); what "
                 "open/start pass to execvpe (file, argv, environment) and which pipe ends parent and child hold afterwards (also when "
-                "vfork fails).  ASSUMPTION-LEVEL (theorems named *_in_pipe_model, protocol systems in Kernel.lean: one usage protocol - "
-                "the harness's - against one child shape - the helper's - over bounded FIFO pipes; the parent's/child's moves are derived "
-                "from Process::write/read/close/join as coded and proved to be steps of the system): no deadlock, termination, intact "
-                "delivery, join returns the exit code, also when join is entered while the child still reads its input and writes.  "
+                "vfork fails); argc = 0.  KERNEL-MODEL LEVEL (theorems named *_in_pipe_model and PropsWait.lean; the kernel side is an explicit "
+                "assumed model): for ARBITRARY parent and child programs, all schedules and chunkings - on every pipe the bytes read plus "
+                "the bytes queued are the bytes written, end-of-file means everything written was read and is final, join stores the exit "
+                "code (0 only after SIGPIPE, which needs an early close by the parent); the documented protocol (write all, close stdin, read "
+                "to end-of-file, join) against an arbitrary child program over read/readAll/write/close actions: no deadlock when the payload "
+                "fits the pipe or the child writes at most one capacity per stream before it has read its input (deadlock example otherwise), "
+                "finite runs, exact delivery; join() as coded entered while the child still reads and writes; Process::wait/interrupt/join/"
+                "kill over a process table WITH pid reuse and a child-exit oracle: no waitpid ever hits a foreign child, every child is held by "
+                "exactly one holder and reaped exactly once, wait returns only a terminated listed child, returns null only when interrupted / "
+                "a child outside the list terminated / no child exists, a pending interrupt always wakes wait and is never lost.  "
                 "TESTED against the real kernel on every run: identical op lines on harness and model driver (exhaustive small scopes, "
                 "exactly sized heap buffers under ASan, watchdog), independent Python reference; exec, pipes, exit codes 0..255, payloads "
-                "around the pipe capacity, join/destructor/kill while the child still reads or writes, descriptor tables through /proc.",
+                "around the pipe capacity, join/destructor/kill while the child still reads or writes, descriptor tables through /proc, "
+                "Process::wait/interrupt with real children and an interrupter thread, Process::exit, the 2-argument read, environ entries "
+                "without '=', failing pipe(); the getopt reference is cross-checked against Python's getopt.gnu_getopt on their common class.",
         "note": "Trusted: Lean kernel + standard axioms; hand translation of Process.cpp (POSIX branch) into the model, validated by the "
                 "correspondence run, not proved; checked-memory abstraction (one block per argv word / option name, the option table holds "
-                "null or NUL-free terminated names; argc >= 1); Map iteration = ascending key order (C01).  'getopt rules' means the "
+                "null or NUL-free terminated names); Map iteration = ascending key order (C01).  'getopt rules' means the "
                 "reference parser of Spec.lean: long options match exactly (no GNU abbreviations), non-options are returned in order as "
                 "character 0.  PARTIAL in the proof sense (process_delivery_partial, OPEN block in Props.lean): vfork/execvpe/pipe/dup2/"
                 "waitpid/select/read/write are the kernel's - what the child observes, exit codes, end-of-file and payload delivery on "
                 "Linux are tested, not proved; the *_in_pipe_model theorems and open_pipe_ends_exact hold in the abstract kernel model of "
                 "Kernel.lean whose adequacy is an assumption; join with child output larger than the pipes and nobody reading blocks "
-                "(caller's protocol, outside the theorems); only the vfork-failure path of open() is modelled, not a failing 2nd/3rd "
-                "pipe().  env_*/proc_* theorems are auxiliary (hand abstractions).  The '0 = closed' bookkeeping assumes pipe() never "
+                "(caller's protocol, outside the theorems); a failing pipe() in open() is the error path with the reduced mask (tested: "
+                "openfailpipe).  Wait model: one owner thread, interrupt() atomic (it holds the mutex), its vfork assumed to succeed (when "
+                "it fails the code drops the interrupt), waitid reports the oldest terminated child (Linux; only the correspondence run uses "
+                "this); a terminated child outside the list makes wait return null every time until it is joined (observation).  Not "
+                "covered: daemonize, the Windows branch, EINTR/time-out of select in read.  env_*/proc_* theorems are auxiliary (hand abstractions).  The '0 = closed' bookkeeping assumes pipe() never "
                 "returns descriptor 0.  Observations (not defects): with single blanks only between the words a trailing empty word "
                 "cannot be written (a blank behind it can); a fully quoted word ending in a backslash swallows its closing quote "
                 "(write the backslash outside the quotes); join reports 0 for a child terminated by a signal.  The model mirrors the "
-                "code repaired by fixes/args/0001-0008.",
+                "code repaired by fixes/args/0001-0009 (0009: Process::exit passed 0 to _exit whatever the argument).",
         "design_ref": "DESIGN.md 3/C20",
     }
 }
@@ -814,6 +826,14 @@ def nontrivial(h, out):
             _hit("late:" + l.split()[1])
         elif o.startswith("p "):
             _hit("proc:call-refused" if o.startswith("p ok=0") else "proc:call-ok")
+        elif o.startswith("w wait"):
+            if "ret=null" in o:
+                w = l.split()
+                _hit("wait:null-interrupted-while-blocked" if w[3] != "0" and w[4] == "-" else "wait:null-pending-or-foreign-or-nochild")
+            else:
+                _hit("wait:returned-terminated-child")
+            if len(h) >= 3:
+                keys.add((tuple(h[:h.index(l) + 1]) if l in h else tuple(h), o))
         if o.startswith(("p ", "e ")) and len(h) >= 3:
             keys.add((tuple(h), o))
         elif o.count(":") >= 2 or (o.startswith("s ") and not o.startswith("s 0") and not o.startswith("s 1 ")) or o.startswith(("x ", "io ", "exit ", "late ", "sig ", "kb ", "ej ")):
@@ -871,6 +891,12 @@ def histories_for(ctx):
         f"run: {len(rl)} launches of the helper child through every start/open form x redirection mask x environment (empty=inherit, 1..3 variables) "
         f"with argv/environment echoed back; io: redirection masks 0..7 x payload sizes {SIZES} ({len(il)} runs, stdin payload written and "
         f"stdout/stderr read to end-of-file, CRC-32 compared); exit: {len(xl)} exit codes through start(command)+join; Process object: every sequence of <= {3 if quick else 4} calls over {len(POPS)} calls (start, open with masks 0/1/7, join, kill, close, isRunning, read with stream selection, destructor, open with a failing vfork) + random sequences ({len(ph)} histories; pid/descriptor bookkeeping, results, EINVAL; every history ends with a count of leaked descriptors), join/destructor/close+join/kill while the child is still going to write to its redirected streams ({len(lh)} histories: all masks, the child waits, writes one line per redirected output stream, leaves a marker file and exits with a non-zero code; join must return that code whether or not the parent has read anything), join/destructor with a child that first reads its redirected stdin to the end (the parent neither closes stdin nor reads: join itself must end the input; 4 masks x sizes), children terminated by signals, a child writing without end is killed; a child blocked on its stdin is killed (4 masks); the descriptor tables of parent and child after open() read through /proc and compared with the descriptor-table model (8 masks); an executable that cannot be started (missing file, empty and blank command line) x masks 0..7: launch succeeds, exit code EXIT_FAILURE, `<program>: No such file or directory` on the redirected stderr; environment: {len(eh)} random histories of setEnvironmentVariable/getEnvironmentVariable/getEnvironmentVariables mixed with launches that inherit the environment. "
+f"Added in the extension round: wait/interrupt: {len(wh)} histories over 4 Process objects (terminated / running children, child "
+        f"exit from outside, join, kill, interrupt before / during (interrupter thread) / after wait, permuted and partial lists, count 0), "
+        f"each line with pending flag and a census of the harness's children; every argv of <= {3 if quick else 4} words over {len(WORDS2)} words with "
+        f"a table holding duplicate letters and names, the letters '-' and ':' and empty long names ({len(ea2)}); argc = 0; Process::exit x "
+        f"codes, getCurrentProcessId, getExecutablePath, 2-argument read + write + close(streams) x sizes; join(), start(argv), "
+        f"open(command) on a busy object, open() with the 1st/2nd/3rd pipe() failing; environ entries without '='. "
         "distinct_nontrivial = distinct observation lines with >= 2 results / >= 2 words / a child run")
     ctx.cov["open_statements"] = [
         "run-time delivery (the child observes argv/environ as given, join returns its exit code, redirected bytes arrive intact up to "
@@ -889,6 +915,10 @@ ASSUMPTIONS = [
     "Map<String,String> iterates in ascending key order (property C01)",
     "vfork/execvpe/pipe/dup2/waitpid/select/read/write behave as documented by POSIX/Linux; pipe() does not return descriptor 0; these run-time parts are tested against the real kernel, not proved",
     "allocation (alloca/new) never fails",
+    "wait/interrupt model (Wait.lean): process table with arbitrary pid allocation incl. reuse of reaped pids, child-exit oracle, waitpid reaps, "
+    "waitid(P_ALL, WEXITED|WNOWAIT) reports some terminated child without reaping / ECHILD without children, vfork returns in the parent after the "
+    "child's _exit; one owner thread; interrupt() atomic and its vfork succeeds; correspondence run only: waitid reports the oldest terminated child",
+    "pipe model for arbitrary programs (Pipes.lean): one holder per pipe end, EPIPE for the parent (SIGPIPE ignored), SIGPIPE kills the child",
     "abstract kernel model (Kernel.lean): a pipe is a bounded FIFO with partial reads/writes and end-of-file when no write end is left; "
     "pipe() returns unused descriptors > 2; vfork copies the descriptor table; its adequacy for Linux is assumed and cross-checked by the io/fdtable streams",
 ]
@@ -915,6 +945,8 @@ def check(ctx):
         ctx.cov["samples"] = [" ; ".join(h[:3]) for h in (hs[:1] + hs[len(hs) // 3: len(hs) // 3 + 1] + hs[len(hs) // 2: len(hs) // 2 + 2] + hs[-40:-39] + hs[-1:])]
         diffs = C.differential(ctx, harness, C.driver_path(DRIVER), hs, reference, model_eq, nontrivial=nontrivial,
                                harness_args=(str(child),), timeout=600)
+        for k, v in PYGETOPT.items():
+            BRANCH_HITS["args:python-gnu_getopt-" + k] = v
         ctx.cov["branch_hits"] = dict(sorted(BRANCH_HITS.items()))
         ctx.log(f"{len(hs)} histories, {ctx.cov['evaluations']} op lines, {len(diffs)} disagreement(s)")
         C.report_diffs(ctx, diffs, harness, C.driver_path(DRIVER), reference, model_eq, "args-ops", harness_args=(str(child),))
